@@ -15,9 +15,28 @@ CHECKS = {
             "Exhaustive in the length dimension (the only one the padding logic depends on), sampled in the hash values.",
             "Trusts hashlib.blake2b and my 20-line reference of the Tezos Merkle construction (validated against the "
             "mainnet vectors in tests/unit_tests/test_crypto/test_hashes.py).", "9/C31"),
+    "C26": ("exhaustive fault-sequence enumeration + hypothesis-generated response bodies vs reference retry policy",
+            "All response sequences up to the 6-attempt limit over a 15-symbol alphabet (thorough: all 50k; quick: all "
+            "with <=4 leading transients + 1/8 of the rest) and generated bodies are played to RpcNode through a "
+            "scripted requests.request / recorded sleep; calls, delays, result and raised error are compared with a "
+            "reference policy that branches both ways where the statement is silent.",
+            "requests.request and time.sleep are replaced in pytezos.rpc.node inside the harness process; real "
+            "requests.Response objects are used. Error bodies that are not lists of {id,...} objects are outside the "
+            "node's format and only the call count is judged for them.", "9/C26"),
+    "C27": ("exhaustive enumeration of identifier forms vs reference lookup order",
+            "Every identifier built from registered handler keys, their components and fresh tokens in the four "
+            "stated forms, as last element of lists of length 1..3, is mapped through RpcError.from_errors and the "
+            "class compared with the reference lookup order over the live registry.",
+            "The registry is read from RpcError.__handlers__ (only 5 keys are registered today). For ids deeper than "
+            "<category>.<name> both readings of 'category' are accepted.", "9/C27"),
+    "C28": ("exhaustive enumeration of outcome sequences per node count",
+            "All 5^L outcome sequences (L=6 quick, 8 thorough) for 1..4 nodes; each HTTP call's URL is recorded and "
+            "must be node i mod n for the i-th client request.",
+            "Outcomes are produced by a scripted requests.request (real Response objects / ConnectionError).", "9/C28"),
 }
 
 NOT_BUILT = {}
+LEVELS = {"C26": "fault_enumeration", "C28": "fault_enumeration"}
 
 
 def main():
@@ -34,7 +53,7 @@ def main():
                 "evidence_file": "evidence/%s.json" % pid,
                 "replay_cmd_template": "./check %s --replay {path}" % pid,
                 "engine": "hypothesis",
-                "level_claimed": {"category": "exploration", "text": text, "design_ref": "DESIGN.md section " + ref},
+                "level_claimed": {"category": LEVELS.get(pid, "exploration"), "text": text, "design_ref": "DESIGN.md section " + ref},
                 "level_note": note,
                 "technique": tech,
             })
